@@ -9,7 +9,7 @@
               (reqs (rq "ds" optype (roots (r "T" "f" protected denied)..) planroots)..)
               (gates (g id "ds" optype (roots (r "T" "f" rule)..) sent eligible unique (req optype (roots (r "T" "f" protected denied)..)))..)
               (forbidden "s"..) [(resp "bytes")] (flags (sentinel b) (goequal b) (mixed b) (merged b)) (sum ..))
-     (c14 run (id ..) .. (execerror "..")) | (c14 op|run (id ..) (laberror "..")) | (c14 skip ..)
+     (c14 run (id ..) .. (execerror "..")) | (c14 op|run (id ..) (laberror "..")) | (c14 skip ..) | (c14 baseline (id ..) (reason "..") (text ".."))
 
    op line : the extracted collect_coordinates over the dumped real plan must equal the Go
              collector's AuthorizationCoordinates (corr:C14/collector); the extracted checkers
@@ -110,6 +110,10 @@ let contains (hay : string) (needle : string) : bool =
 let handle (x : sexp) : (string * string) list =
   match x with
   | L (A "c14" :: A "skip" :: _) -> [("ok", "tr skipped")]
+  (* a hand-written federation whose un-authorized gateway run must equal the monolith (Fixture.StrictBaseline) *)
+  | L (A "c14" :: A "baseline" :: (L (A "id" :: _) as id) :: items) ->
+    let reason = (match find_opt "reason" items with Some [S r] -> r | _ -> "") and text = (match find_opt "text" items with Some [S t] -> t | _ -> "") in
+    [("specfail", Printf.sprintf "baseline_agrees the gateway's answer without any authorizer differs from the monolithic execution on a hand-written federation: %s :: %s id=%s" text reason (print_sexp id))]
   | L (A "c14" :: A _ :: L (A "id" :: _) :: L [A "laberror"; S m] :: _) -> [("error", "lab: " ^ m)]
   | L (A "c14" :: A "op" :: (L (A "id" :: _) as id) :: items) ->
     let res = ref [] in
